@@ -273,7 +273,7 @@ class Check:
         """Compile a generated Cases file (kernel evaluation with vm_compute); returns stdout."""
         d = os.path.join(COQ, "Cases")
         os.makedirs(d, exist_ok=True)
-        path = os.path.join(d, f"{name}_{os.getpid()}.v")
+        path = os.path.join(d, f"{name}_{os.getpid()}_{abs(hash(text)) % 10**9}.v")
         with open(path, "w") as f:
             f.write(text)
         try:
@@ -291,6 +291,13 @@ class Check:
             except OSError:
                 pass
         return p.returncode, p.stdout, p.stderr
+
+    def coq_eval_many(self, name, texts, timeout=600, workers=8):
+        """Several independent Cases files, compiled by parallel coqc processes; returns [(rc, out, err)] in order."""
+        from concurrent.futures import ThreadPoolExecutor
+        with ThreadPoolExecutor(max_workers=workers) as ex:
+            futs = [ex.submit(self.coq_eval, f"{name}{i}", t, timeout) for i, t in enumerate(texts)]
+            return [f.result() for f in futs]
 
     def obligation(self, name, ok, note=""):
         self.obligations.append((name, bool(ok), note))
